@@ -229,6 +229,11 @@ func c08RunOne(env *h.Env, c *c08Case, tree *h.Tree, idx int, s c08Schedule) (*c
 		perturb(s.Seed, 10, int64(sendCalls))
 	}
 	defer func() { _, _ = sendProgress, recvProgress }()
+	// (every other schedule only: the callbacks pace the sender, which hides stalls
+	// that need the announcements to run far ahead of the content)
+	if s.Seed%2 == 1 {
+		opt.ProgressCb, sendProg = nil, nil
+	}
 	res := h.RunSync(mem, dstDir, h.SyncOpt{Capacity: s.Capacity, Recv: opt, SendProgFn: sendProg, Setup: func(p *h.Pair) {
 		p.S.BeforeSend = func(n int, _ *types.Packet) error { perturb(s.Seed, 4, int64(n)); return nil }
 		p.S.BeforeRecv = func(n int) error { perturb(s.Seed, 5, int64(n)); return nil }
